@@ -104,7 +104,8 @@ def _work(item) -> Dict[str, Any]:
         y = node(eq.target.name, eq.target.off)
         sym = next(s for s in symbols if s.name == eq.target.name)
         edges = sorted({(x.split('[')[0], _off(x)) for x in G.predecessors(y) if x in varlike})
-        ctx = Ctx(budget_s=60)
+        quick = vlib.tier() == 'quick'
+        ctx = Ctx(budget_s=25 if quick else 60, timeout_ms=10000 if quick else 20000)
         tz, Lz = z3.Int('t'), z3.Int('L')
         ctx.assume(Lz >= lags + leads + 1, 'L >= lags+leads+1')
         ctx.assume(z3.And(tz >= lags, tz <= Lz - 1 - leads), 'feasible period')
